@@ -446,7 +446,7 @@ pub fn property() -> Property {
             Box::new(GenPart {
                 name: "random-sequences",
                 rule: "see property rule",
-                cases: (60_000, 2_000_000),
+                cases: (600_000, 2_000_000),
                 strategy: rand_strategy,
                 check: check_rand,
                 required_classes: &["refusal-overflow", "refusal-undefined-id", "refusal-occupied-slot", "new_frag-replaces-slot", "save-aliasing-take-right-take"],
